@@ -33,13 +33,15 @@ type C09Sc struct {
 	// Reconf / ReconfAt: the executor is given another supported set (bitmask) while in service: the first ReconfAt
 	// requests run to completion under the initial set, then SetSupportedProtocolVersions is called again, then the
 	// others run. Each request is judged by the set in force when it ran
-	Reconf   int `json:"reconf,omitempty"`
-	ReconfAt int `json:"reconf_at,omitempty"`
+	// RouteDiscover: the application routes Discover Versions itself (its handler may fail or panic like any other)
+	RouteDiscover bool `json:"route_discover,omitempty"`
+	Reconf        int  `json:"reconf,omitempty"`
+	ReconfAt      int  `json:"reconf_at,omitempty"`
 }
 
 var c09Outcomes = []ItemSc{
 	{Tok: "ok"}, {Tok: "et"}, {Tok: "ep"}, {Tok: "pe"}, {Tok: "ps"}, {Tok: "pi"}, {Op: "unrouted", Tok: "ok"}, {Tok: "ok", Ext: "critical"}, {Op: "discover", Tok: "ok"}, {Op: "unknown", Tok: "ok"},
-	{Tok: "pS"}, {Tok: "pn"}, {Tok: "ok", Ext: "plain"}, {Tok: "y1,ok"}, {Tok: "y2,et"}, {Tok: "pk"}, {Tok: "pK"}, {Tok: "pm"}, {Tok: "nn"}, {Tok: "y1,nn"}, {Op: "destroy", Tok: "ok"}, {Op: "archive", Tok: "et"}, {Op: "recover", Tok: "ok"}, {Op: "revoke", Tok: "pe"}, {Op: "destroy", Tok: "nn"},
+	{Tok: "pS"}, {Tok: "pn"}, {Tok: "ok", Ext: "plain"}, {Tok: "y1,ok"}, {Tok: "y2,et"}, {Tok: "pk"}, {Tok: "pK"}, {Tok: "pm"}, {Tok: "nn"}, {Tok: "y1,nn"}, {Op: "destroy", Tok: "ok"}, {Op: "archive", Tok: "et"}, {Op: "recover", Tok: "ok"}, {Op: "revoke", Tok: "pe"}, {Op: "destroy", Tok: "nn"}, {Op: "discover", Tok: "et"}, {Op: "discover", Tok: "pe"}, {Op: "discover", Tok: "nn"},
 }
 
 func genReqSc(g *simrt.Tape, maxItems int) ReqSc {
@@ -104,6 +106,12 @@ func genC09(g *simrt.Tape, tier string) any {
 		}
 	}
 	sc.Chunk = []int{simnet.ChunkMax, simnet.ChunkRandom}[g.Draw(2)]
+	if g.Draw(5) == 0 {
+		sc.RouteDiscover = true
+		for i := range sc.Reqs {
+			routedDiscovery(&sc.Reqs[i])
+		}
+	}
 	if len(sc.Reqs) > 1 && g.Draw(5) == 0 {
 		sc.Reconf = 1 + g.Draw(31)
 		sc.ReconfAt = 1 + g.Draw(len(sc.Reqs)-1)
@@ -234,7 +242,9 @@ func checkBatch(x *X, prop string, rs *ReqSc, prefix string, supported []kmip.Pr
 			gotOK := ri.ResultStatus == kmip.ResultStatusSuccess
 			if gotOK != wantOK[i] {
 				mismatch = fmt.Sprintf("item %d status %v, want success=%v", i, ri.ResultStatus, wantOK[i])
-			} else if gotOK && rs.Items[i].Op == "discover" {
+			} else if gotOK && rs.Items[i].Op == "discover-routed" && returnsNothing(rs.Items[i]) {
+				// nothing returned, nothing judged
+			} else if gotOK && (rs.Items[i].Op == "discover" || rs.Items[i].Op == "discover-routed") {
 				// (the executor answers with the request payload type, which has the same wire form: both accepted)
 				n := -1
 				switch p := ri.ResponsePayload.(type) {
@@ -323,6 +333,9 @@ func execC09(x *X, scAny any) {
 			list = append(list, list...)
 		}
 		w.exec.SetSupportedProtocolVersions(list...)
+	}
+	if sc.RouteDiscover {
+		w.routeDiscover()
 	}
 	resps := make([]*kmip.ResponseMessage, len(sc.Reqs))
 	errs := make([]error, len(sc.Reqs))
@@ -493,6 +506,11 @@ func init() {
 			{Name: "supported-set-spellings", Count: func(string) int { return 3 * 4 * 9 }, Scenario: func(_ string, i int) any {
 				return &C09Sc{Supported: []int{5, 20, 31}[i%3], SupportedSpelling: (i / 3) % 4,
 					Reqs: []ReqSc{{Version: i / 12, Option: 1, Items: []ItemSc{{Tok: "ok"}, {Tok: "ok"}}}}}
+			}},
+			{Name: "routed-discovery", Count: func(string) int { return 4 * 4 * 2 }, Scenario: func(_ string, i int) any {
+				tok := []string{"ok", "et", "pe", "nn"}[i%4]
+				return &C09Sc{RouteDiscover: true, EndToEnd: i >= 16, Reqs: []ReqSc{{Version: 4, Option: (i / 4) % 4, Items: []ItemSc{{Tok: "ok"}, {Op: "discover-routed", Tok: tok}, {Tok: "ok"}}},
+					{Version: 2, Option: (i / 4) % 4, Items: []ItemSc{{Op: "discover-routed", Tok: tok}}}}}
 			}},
 			{Name: "small-maximum-response-size", Count: func(string) int { return 6 * 4 * 3 }, Scenario: func(_ string, i int) any {
 				toks := [][]ItemSc{{{Tok: "ok"}, {Tok: "ok"}, {Tok: "ok"}}, {{Tok: "ok"}, {Tok: "et"}, {Tok: "ok"}, {Tok: "ok"}}, {{Tok: "ok"}, {Tok: "ok", NoID: true}, {Tok: "pe"}, {Tok: "ok"}, {Tok: "ok"}}}
